@@ -152,6 +152,24 @@ func vseams(args []string) error {
 			cases = append(cases, seamCase{text: text, want: v, valid: true, desc: fmt.Sprintf("document of exactly %d bytes", size)})
 		}
 	}
+	// (3b) distances of 64 KiB and more between two structural characters (one long string, one long white-space run): the
+	// increments handed to stage 2 must not lose their upper bits.  With a decoy inside the string exactly where a 16-bit
+	// wrap would look for the next token.
+	for _, gap := range []int{65534, 65535, 65536, 65537, 70001, 131072, 131073, 200000} {
+		one := abs.Value{K: '#', Lit: "1"}
+		two := abs.Value{K: '#', Lit: "2"}
+		long := bytes.Repeat([]byte{'x'}, gap)
+		sv := abs.Value{K: 's', Str: long}
+		cases = append(cases,
+			seamCase{text: []byte(`["` + string(long) + `",1]`), want: abs.Value{K: 'a', Arr: []abs.Value{sv, one}}, valid: true, desc: fmt.Sprintf("a string of %d bytes, then a member", gap)},
+			seamCase{text: []byte(`[1,` + strings.Repeat(" ", gap) + `2]`), want: abs.Value{K: 'a', Arr: []abs.Value{one, two}}, valid: true, desc: fmt.Sprintf("%d blanks between two members", gap)},
+			seamCase{text: []byte(`{"k":"` + string(long) + `","b":[1,2]}`), want: abs.Value{K: 'o', Obj: []abs.Member{{Key: []byte("k"), Val: sv}, {Key: []byte("b"), Val: abs.Value{K: 'a', Arr: []abs.Value{one, two}}}}}, valid: true,
+				desc: fmt.Sprintf("object with a string value of %d bytes", gap)})
+		decoy := append([]byte{}, long...)
+		copy(decoy[gap%65536:], `,2]`)
+		cases = append(cases, seamCase{text: []byte(`["` + string(decoy) + `",1]`), want: abs.Value{K: 'a', Arr: []abs.Value{{K: 's', Str: decoy}, one}}, valid: true,
+			desc: fmt.Sprintf("a string of %d bytes holding ',2]' where a 16-bit distance would land", gap)})
+	}
 	// (4) invalid (and a few valid) fragments inside large valid wrappers, at the start / at buffer seams / at the very end
 	frags := wrapFrags
 	_ = []string{`tru`, `nul`, `truex`, `01`, `-`, `1.`, `1e`, `"abc`, `"a\x"`, `"a` + "\x01" + `b"`, `[1 2]`, `[1,]`, `{"a" 1}`, `{"a":}`, `{,}`, `[}`, `]`, `}`, `:`, `,`,
